@@ -63,6 +63,18 @@ PROPS = {
         trusted_base=KFL_TB + LIB,
         assumptions=["ojg parse / print round-trips JSON values (numbers compared as exact decimals)"],
     ),
+    "C15": dict(
+        proof_modules=["KsVerif.Proofs.C15"],
+        families=["kfl.redact"],
+        rule="kfl.redact: records with unique sentinel strings at every leaf (objects, arrays, nested objects, JSON "
+             "documents held plainly and base64-wrapped in string fields, a document nested two levels deep) x 1-3 "
+             "redaction paths drawn from plain, indexed, bracket-key, wildcard, recursive-descent paths, one and two "
+             ".json() hops, non-existing and overlapping paths in any order; the returned record is compared as a value, "
+             "looking through nested documents, with the spec's structural rewrite and with the model; "
+             "non-trivial = the spec changes the record",
+        trusted_base=KFL_TB + ["Kfl/RedactSpec.lean: the structural rewrite the property statement describes"] + LIB,
+        assumptions=["XML hops (mxj) are outside the model and the spec of this check"],
+    ),
     "C18": dict(
         proof_modules=["KsVerif.Proofs.C18"],
         families=["kfl.reuse"],
